@@ -23,8 +23,10 @@
 
 #include <algorithm>
 #include <functional>
+#include <map>
 #include <memory>
 #include <sstream>
+#include <sys/mman.h>
 
 namespace c11
 {
@@ -478,7 +480,7 @@ inline Recorded recordScript(Env &env, const cfs::Image &base, const Adm &A0, co
 }
 
 // Admissible states at the instant "just before event j" (j in [0, ev.size()]).
-inline Adm admAtInstant(const Recorded &r, size_t j)
+inline Adm admAtInstant(const Recorded &r, size_t j, bool *inCall = nullptr)
 {
   // find the enclosing call, if any: the last marker before j
   int inOp = -100; // -100 = between calls
@@ -496,6 +498,8 @@ inline Adm admAtInstant(const Recorded &r, size_t j)
     }
   }
   (void)done;
+  if (inCall)
+    *inCall = inOp >= 0;
   if (inOp == -100 || inOp < 0) // between calls, or inside the opening of the store (no key touched)
     return r.S[std::min<size_t>(size_t(completed), r.S.size() - 1)];
   Adm a = r.S[size_t(inOp)];
@@ -516,16 +520,21 @@ struct CrashPoint
 };
 
 // Admissible set for the image (m, cut): intersection over all crash instants that produce it.
-inline Adm admForImage(const Recorded &r, int m, uint64_t cut, bool *emptyIntersection)
+inline Adm admForImage(const Recorded &r, int m, uint64_t cut, bool *emptyIntersection, bool *boundary = nullptr)
 {
   if (cut > 0)
     return admAtInstant(r, size_t(r.mutIdx[size_t(m)]) + 0) /* inside event: markers before it decide */;
   size_t lo = m == 0 ? 0 : size_t(r.mutIdx[size_t(m - 1)]) + 1;
   size_t hi = size_t(m) < r.mutIdx.size() ? size_t(r.mutIdx[size_t(m)]) : r.ev.size();
-  Adm a = admAtInstant(r, lo);
+  bool inCall = false;
+  Adm a = admAtInstant(r, lo, &inCall);
+  if (boundary && !inCall)
+    *boundary = true;
   for (size_t j = lo + 1; j <= hi; ++j)
   {
-    Adm b = admAtInstant(r, j);
+    Adm b = admAtInstant(r, j, &inCall);
+    if (boundary && !inCall)
+      *boundary = true;
     for (int k = 0; k < NKEYS; ++k)
     {
       a.k[k] = ksIntersect(a.k[k], b.k[k]);
@@ -563,6 +572,50 @@ inline std::string shapeOf(const Recorded &r, int m, uint64_t cut)
   return "after-" + eventShape(r.ev[size_t(r.mutIdx[size_t(m - 1)])]);
 }
 
+// lock-free insert-only set of 64-bit hashes in shared memory (distinct-case counting across workers)
+struct SharedSet
+{
+  uint64_t *tab = nullptr;
+  size_t cap = 0;
+  volatile uint64_t *count = nullptr;
+  void init(size_t capPow2)
+  {
+    cap = capPow2;
+    tab = (uint64_t *)mmap(nullptr, cap * 8 + 64, PROT_READ | PROT_WRITE, MAP_SHARED | MAP_ANONYMOUS | MAP_NORESERVE, -1, 0);
+    count = (volatile uint64_t *)(tab + cap);
+  }
+  void insert(uint64_t h)
+  {
+    if (!tab)
+      return;
+    if (h == 0)
+      h = 1;
+    if (*count > cap / 2)
+      return; // saturated: the count becomes a lower bound (reported)
+    size_t i = (h * 0x9E3779B97F4A7C15ull) & (cap - 1);
+    for (size_t probes = 0; probes < cap; ++probes)
+    {
+      uint64_t cur = __atomic_load_n(&tab[i], __ATOMIC_RELAXED);
+      if (cur == h)
+        return;
+      if (cur == 0)
+      {
+        uint64_t exp = 0;
+        if (__atomic_compare_exchange_n(&tab[i], &exp, h, false, __ATOMIC_RELAXED, __ATOMIC_RELAXED))
+        {
+          __atomic_fetch_add(count, 1, __ATOMIC_RELAXED);
+          return;
+        }
+        if (exp == h)
+          return;
+      }
+      i = (i + 1) & (cap - 1);
+    }
+  }
+  bool saturated() const { return count && *count > cap / 2; }
+};
+
+
 // ---------------------------------------------------------------------------------------------
 // sink: violations + counters
 // ---------------------------------------------------------------------------------------------
@@ -578,12 +631,26 @@ struct Sink
 // ---------------------------------------------------------------------------------------------
 // comparing an observation with the admissible set
 // ---------------------------------------------------------------------------------------------
-struct Mismatch
+struct Finding
 {
-  std::string kind; // lost-missing | lost-stale | resurrected | foreign-value | expiry-wrong | expired-visible | foreign-key
+  std::string kind; // ack-lost | foreign-state | expired-visible | foreign-key | throws
   int key = -1;
+  std::string cls;  // class of the acknowledged call whose effect the mismatch loses
   std::string detail;
+  int m2 = -1; // continuation d: second-level crash point
+  uint64_t cut2 = 0;
+  bool secondFinal = false; // d: the further call had returned at the second crash
 };
+inline std::string clauseOf(const std::string &kind)
+{
+  if (kind == "throws")
+    return "reopen-succeeds";
+  if (kind == "ack-lost")
+    return "acknowledged-state-visible";
+  if (kind == "expired-visible")
+    return "expired-absent";
+  return "no-torn-foreign-resurrected";
+}
 
 inline KObs visibleOf(const KS &s, int64_t T)
 {
@@ -600,69 +667,63 @@ inline bool sameObs(const KObs &a, const KObs &b)
 {
   return a.present == b.present && (!a.present || (a.val == b.val && a.ttl == b.ttl));
 }
-// everVals[k]: every value key k held in any model state of this case (to tell stale from foreign)
-inline std::vector<Mismatch> compare(const Obs &o, const Adm &A, int64_t T, const std::vector<std::string> everVals[NKEYS])
+inline std::string obsStr(const KObs &v)
 {
-  std::vector<Mismatch> out;
+  return !v.present ? std::string("absent") : "'" + v.val + "'" + (v.ttl >= 0 ? "@ttl=" + std::to_string(v.ttl) + "s" : "");
+}
+// ever[k]: every state key k held in any model state of this case: a mismatching observation that equals
+// one of them is an acknowledged effect lost (stale / vanished / resurrected); anything else is a state
+// no call ever produced (torn / foreign).
+inline void compare(const Obs &o, const Adm &A, int64_t T, const KSet ever[NKEYS], const std::string cls[NKEYS], const char *stage,
+                    std::vector<Finding> &out)
+{
   for (int k = 0; k < NKEYS; ++k)
   {
-    bool ok = false;
-    bool anyPresent = false, anyAbsent = false, valueMatch = false, expiredMatch = false;
+    bool ok = false, expiredMatch = false;
     for (auto &s : A.k[k])
     {
       KObs v = visibleOf(s, T);
       if (sameObs(v, o.k[k]))
         ok = true;
-      if (v.present)
-        anyPresent = true;
-      else
-        anyAbsent = true;
-      if (v.present && o.k[k].present && v.val == o.k[k].val)
-        valueMatch = true;
       if (!v.present && s.present && o.k[k].present && s.val == o.k[k].val)
         expiredMatch = true;
     }
     if (ok)
       continue;
-    Mismatch mm;
-    mm.key = k;
-    if (!o.k[k].present)
-      mm.kind = "lost-missing";
-    else if (valueMatch)
-      mm.kind = "expiry-wrong";
-    else if (expiredMatch)
-      mm.kind = "expired-visible";
+    Finding f;
+    f.key = k;
+    f.cls = cls[k];
+    if (expiredMatch)
+      f.kind = "expired-visible";
+    else if (!o.k[k].present)
+      f.kind = "ack-lost";
     else
     {
-      bool ever = std::find(everVals[k].begin(), everVals[k].end(), o.k[k].val) != everVals[k].end();
-      if (!ever)
-        mm.kind = "foreign-value";
-      else if (!anyPresent)
-        mm.kind = "resurrected";
-      else
-        mm.kind = "lost-stale";
+      bool ever_ = false;
+      for (auto &s : ever[k])
+        if (sameObs(visibleOf(s, T), o.k[k]))
+          ever_ = true;
+      f.kind = ever_ ? "ack-lost" : "foreign-state";
     }
-    (void)anyAbsent;
     std::string adm;
     for (auto &s : A.k[k])
-    {
-      KObs v = visibleOf(s, T);
-      adm += (adm.empty() ? "" : "|");
-      adm += !v.present ? "absent" : "'" + v.val + "'" + (v.ttl >= 0 ? "@ttl=" + std::to_string(v.ttl) + "s" : "");
-    }
-    mm.detail = std::string("key ") + KEYS[k] + ": admissible {" + adm + "}, store shows " +
-                (!o.k[k].present ? std::string("absent")
-                                 : "'" + o.k[k].val + "'" + (o.k[k].ttl >= 0 ? "@ttl=" + std::to_string(o.k[k].ttl) + "s" : ""));
-    out.push_back(mm);
+      adm += (adm.empty() ? "" : "|") + obsStr(visibleOf(s, T));
+    f.detail = std::string("key ") + KEYS[k] + ": admissible {" + adm + "}, store shows " + obsStr(o.k[k]) + " (" + stage + ")";
+    out.push_back(f);
   }
-  for (auto &f : o.foreign)
+  for (auto &fk : o.foreign)
   {
-    Mismatch mm;
-    mm.kind = "foreign-key";
-    mm.detail = "unexpected key/inconsistent listing: " + f;
-    out.push_back(mm);
+    Finding f;
+    f.kind = "foreign-key";
+    f.cls = "-";
+    f.detail = "unexpected key / inconsistent listing: " + fk + " (" + stage + ")";
+    bool dup = false;
+    for (auto &g : out)
+      if (g.kind == f.kind)
+        dup = true;
+    if (!dup)
+      out.push_back(f);
   }
-  return out;
 }
 
 // ---------------------------------------------------------------------------------------------
@@ -725,11 +786,10 @@ struct Ctx
 {
   Env *env = nullptr;
   Sink *sink = nullptr;
-  std::string hist;               // level-1 history
-  std::vector<std::string> ever[NKEYS]; // values ever held by each key in any model state of the case
-  std::string lastOpCls[NKEYS];   // class of the last acknowledged level-1 op that touched the key
-  uint64_t instances = 0;         // store instances created (thread budget under mcsched)
-  int onlyM2 = -1;                // replay of a (d) case: evaluate only this second-level point
+  std::string hist;       // level-1 history
+  KSet ever[NKEYS];       // states ever held by each key in any model state of the case
+  uint64_t instances = 0; // store instances created (thread budget under mcsched)
+  int onlyM2 = -1;        // replay of a (d) case: evaluate only this second-level point
   uint64_t onlyCut2 = 0;
   // (d): given the number of second-level crash images, which ordinals [from,to) to evaluate now
   // (the scheduler part splits them over several executions: thread budget)
@@ -737,38 +797,36 @@ struct Ctx
   bool anyViolation = false;
 };
 
-inline void noteEver(Ctx &c, const Adm &a)
+inline void noteEver(KSet ever[NKEYS], const Adm &a)
 {
   for (int k = 0; k < NKEYS; ++k)
     for (auto &s : a.k[k])
-      if (s.present && std::find(c.ever[k].begin(), c.ever[k].end(), s.val) == c.ever[k].end())
-        c.ever[k].push_back(s.val);
+      ksInsert(ever[k], s);
 }
 
-inline void report(Ctx &c, const CaseId &id, const std::string &clause, const std::string &kind, const std::string &opCls,
-                   const std::string &shape, const std::string &detail)
+// A crash image with everything the continuations need to judge it.
+struct ImageCtx
 {
-  std::string sig = kind + ":op=" + opCls + ":crash=" + shape + ":cont=" + std::string(1, id.cont.kind);
-  c.anyViolation = true;
-  c.sink->violation(clause, sig, id.str(),
-                    "history [" + histName(c.hist) + "] crash point m=" + std::to_string(id.m) + " cut=" + std::to_string(id.cut) + " (" + shape +
-                        ") continuation " + id.cont.str() + (id.m2 >= 0 ? " second crash m2=" + std::to_string(id.m2) + " cut2=" + std::to_string(id.cut2) : "") +
-                        ": " + detail);
-  if (c.env->verbose)
-    printf("  VIOLATION %s / %s :: %s\n", clause.c_str(), sig.c_str(), detail.c_str());
-}
+  cfs::Image im;
+  Adm A;
+  std::string cls[NKEYS]; // class of the last call on each key acknowledged at every instant of the image
+  std::string shape;      // "none" if the image is also the image of an instant between two calls
+};
 
-// Reopen the materialised directory, observe, compare.  opClsFor(key) names the acknowledged call whose
-// effect a mismatch on that key loses.
-inline bool reopenAndCheck(Ctx &c, const CaseId &id, const Adm &A, const std::string &shape, const std::string opCls[NKEYS],
-                           const char *stage)
+// Reopen the materialised directory, observe, compare.
+inline bool reopenAndCheck(Ctx &c, const Adm &A, const KSet ever[NKEYS], const std::string cls[NKEYS], const char *stage,
+                           std::vector<Finding> &out)
 {
   Store st(c.env, &c.instances);
   std::string err;
   c.sink->count("recoveries");
   if (!st.open(&err))
   {
-    report(c, id, "reopen-succeeds", std::string("throws@") + stage, "-", shape, "reopening threw: " + err);
+    Finding f;
+    f.kind = "throws";
+    f.cls = "-";
+    f.detail = std::string("reopening threw: ") + err + " (" + stage + ")";
+    out.push_back(f);
     return false;
   }
   Obs o = st.observe();
@@ -776,55 +834,51 @@ inline bool reopenAndCheck(Ctx &c, const CaseId &id, const Adm &A, const std::st
   st.close();
   if (c.env->verbose)
     printf("    %s: store shows %s ; admissible %s\n", stage, o.str().c_str(), A.str().c_str());
-  std::vector<Mismatch> mm = compare(o, A, T, c.ever);
-  std::vector<std::string> seen;
-  for (auto &m : mm)
-  {
-    std::string cls = m.key >= 0 ? opCls[m.key] : "-";
-    std::string key = m.kind + cls;
-    if (std::find(seen.begin(), seen.end(), key) != seen.end())
-      continue;
-    seen.push_back(key);
-    std::string clause = (m.kind == "lost-missing" || m.kind == "lost-stale" || m.kind == "expiry-wrong") ? "acknowledged-state-visible"
-                         : m.kind == "expired-visible"                                                      ? "expired-absent"
-                                                                                                            : "no-torn-foreign-resurrected";
-    report(c, id, clause, m.kind, cls.empty() ? "none" : cls, shape, m.detail + " (" + stage + ")");
-  }
-  return mm.empty();
+  size_t before = out.size();
+  compare(o, A, T, ever, cls, stage, out);
+  return out.size() == before;
 }
 
-// Run one continuation on the crash image `im` whose admissible set is A.
-inline void runCont(Ctx &c, const cfs::Image &im, const Adm &A, const std::string &shape, const CaseId &idBase, const Cont &ct)
+// Run one continuation on a crash image; findings are returned, not reported (evalPoint reduces them first).
+inline std::vector<Finding> runCont(Ctx &c, const ImageCtx &I, const Cont &ct, bool primary)
 {
+  std::vector<Finding> out;
   Env &env = *c.env;
-  CaseId id = idBase;
-  id.cont = ct;
-  c.sink->count("cases");
-  c.sink->count((std::string("cont_") + ct.kind).c_str());
+  const cfs::Image &im = I.im;
+  const Adm &A = I.A;
+  if (primary && ct.kind != 'd') // d: one case per second-level crash image
+  {
+    c.sink->count("cases");
+    c.sink->count((std::string("cont_") + ct.kind).c_str());
+  }
+  if (!primary)
+    c.sink->count("reduction_runs");
   if (ct.wallAdvS)
     env.advanceWallMs(int64_t(ct.wallAdvS) * 1000);
+  KSet ever[NKEYS];
   std::string cls[NKEYS];
   for (int k = 0; k < NKEYS; ++k)
-    cls[k] = c.lastOpCls[k].empty() ? "none" : c.lastOpCls[k];
+  {
+    ever[k] = c.ever[k];
+    cls[k] = I.cls[k];
+  }
   if (ct.kind == 'a')
   {
     im.materialise(env.dir);
-    reopenAndCheck(c, id, A, shape, cls, "reopen");
+    reopenAndCheck(c, A, ever, cls, "reopen", out);
   }
   else if (ct.kind == 'b')
   {
     im.materialise(env.dir);
+    Store st(c.env, &c.instances);
+    std::string err;
+    c.sink->count("recoveries");
+    if (st.open(&err))
     {
-      Store st(c.env, &c.instances);
-      std::string err;
-      c.sink->count("recoveries");
-      if (st.open(&err))
-      {
-        st.close();
-        reopenAndCheck(c, id, A, shape, cls, "second reopen after clean close");
-      }
-      // a throwing first reopen is continuation (a)'s finding
+      st.close();
+      reopenAndCheck(c, A, ever, cls, "second reopen after clean close", out);
     }
+    // a throwing first reopen is continuation a's finding
   }
   else if (ct.kind == 'c')
   {
@@ -850,9 +904,17 @@ inline void runCont(Ctx &c, const cfs::Image &im, const Adm &A, const std::strin
         for (int k = 0; k < NKEYS; ++k)
           if (od->touched >> k & 1)
             cls[k] = od->cls;
-      noteEver(c, A2);
-      if (alive || ct.op != 'R')
-        reopenAndCheck(c, id, A2, shape, cls, "reopen after acknowledged further op + clean close");
+      noteEver(ever, A2);
+      if (alive)
+        reopenAndCheck(c, A2, ever, cls, "reopen after acknowledged further call + clean close", out);
+      else
+      {
+        Finding f;
+        f.kind = "throws";
+        f.cls = "-";
+        f.detail = "the reopen inside the further close+reopen threw: " + err;
+        out.push_back(f);
+      }
     }
   }
   else if (ct.kind == 'd')
@@ -861,11 +923,11 @@ inline void runCont(Ctx &c, const cfs::Image &im, const Adm &A, const std::strin
     c.sink->count("recoveries");
     c.sink->count("second_level_scripts");
     if (r2.unmodelled)
-      c.sink->violation("harness-internal", "crashfs-unmodelled", id.str(), r2.unmodelledWhat);
+      c.sink->violation("harness-internal", "crashfs-unmodelled", "kv h=" + c.hist, r2.unmodelledWhat);
     if (!r2.openFailed)
     {
       for (auto &s : r2.S)
-        noteEver(c, s);
+        noteEver(ever, s);
       const OpDef *od = opDef(ct.op);
       std::string cls2[NKEYS];
       cfs::Image im2 = im;
@@ -873,7 +935,7 @@ inline void runCont(Ctx &c, const cfs::Image &im, const Adm &A, const std::strin
       int total = -1; // (0,0) is skipped
       for (int m = 0; m <= M; ++m)
         total += (m < M && r2.ev[size_t(r2.mutIdx[size_t(m)])].kind == cfs::WRITE) ? int(r2.ev[size_t(r2.mutIdx[size_t(m)])].len) : 1;
-      std::pair<int, int> range = c.dSelect ? c.dSelect(total) : std::make_pair(0, total);
+      std::pair<int, int> range = (c.dSelect && primary) ? c.dSelect(total) : std::make_pair(0, total);
       int ordinal = 0;
       for (int m = 0; m <= M; ++m)
       {
@@ -887,27 +949,32 @@ inline void runCont(Ctx &c, const cfs::Image &im, const Adm &A, const std::strin
             continue;
           if (c.onlyM2 >= 0 && !(c.onlyM2 == m && c.onlyCut2 == cut))
             continue;
-          bool emptyI = false;
-          Adm A2 = admForImage(r2, m, cut, &emptyI);
+          bool emptyI = false, boundary = false;
+          Adm A2 = admForImage(r2, m, cut, &emptyI, &boundary);
           if (emptyI)
-            c.sink->violation("harness-internal", "empty-admissible-set", id.str(), "second level");
+            c.sink->violation("harness-internal", "empty-admissible-set", "kv h=" + c.hist, "second level");
           cfs::Image x = im2;
           if (cut > 0)
             x.applyPartial(r2.ev[size_t(r2.mutIdx[size_t(m)])], cut);
-          CaseId id2 = id;
-          id2.m2 = m;
-          id2.cut2 = cut;
-          // the further op counts as acknowledged for a key only if every instant of this image lies after its return
+          // the further call counts as acknowledged for a key only if every instant of this image lies after its return
+          bool fin = m == M && r2.acked.size() == 1 && r2.acked[0];
           for (int k = 0; k < NKEYS; ++k)
           {
             cls2[k] = cls[k];
-            if ((od->touched >> k & 1) && m == M && r2.acked.size() == 1 && r2.acked[0])
+            if ((od->touched >> k & 1) && fin)
               cls2[k] = od->cls;
           }
           x.materialise(env.dir);
-          c.sink->count("second_level_images");
+          c.sink->count("cont_d");
           c.sink->count("cases");
-          reopenAndCheck(c, id2, A2, shape, cls2, ("reopen after second crash " + shapeOf(r2, m, cut)).c_str());
+          size_t before = out.size();
+          reopenAndCheck(c, A2, ever, cls2, ("reopen after second crash " + shapeOf(r2, m, cut)).c_str(), out);
+          for (size_t i = before; i < out.size(); ++i)
+          {
+            out[i].m2 = m;
+            out[i].cut2 = cut;
+            out[i].secondFinal = fin;
+          }
         }
         if (m < M)
           im2.apply(r2.ev[size_t(r2.mutIdx[size_t(m)])]);
@@ -916,6 +983,7 @@ inline void runCont(Ctx &c, const cfs::Image &im, const Adm &A, const std::strin
   }
   if (ct.wallAdvS)
     env.advanceWallMs(-int64_t(ct.wallAdvS) * 1000);
+  return out;
 }
 
 // The list of continuations for a tier / history length.
@@ -943,8 +1011,6 @@ inline std::vector<Cont> contList(const ContPlan &p)
   }
   return v;
 }
-// worst-case number of store instances a continuation creates (thread budget under mcsched)
-inline int contInstances(const Cont &c) { return c.kind == 'a' ? 1 : c.kind == 'b' ? 2 : c.kind == 'c' ? (c.op == 'R' ? 3 : 2) : 1000; }
 
 // ---------------------------------------------------------------------------------------------
 // first level: record a history, enumerate the crash images of its LAST call
@@ -962,8 +1028,10 @@ inline Level1 recordHistory(Ctx &c, const std::string &hist)
   c.hist = hist;
   L.rec = recordScript(*c.env, cfs::Image(), admEmpty(), hist, &c.instances);
   const Recorded &r = L.rec;
+  for (int k = 0; k < NKEYS; ++k)
+    c.ever[k].clear();
   for (auto &s : r.S)
-    noteEver(c, s);
+    noteEver(c.ever, s);
   // crash points of the last call only: the log of h[0..n-2] is a prefix of the log of h (checked by the
   // determinism test of the sequential part), and every shorter history is enumerated as its own case.
   int lastOp = int(hist.size()) - 1;
@@ -1002,21 +1070,48 @@ inline cfs::Image imageAt(const Recorded &r, int m, uint64_t cut)
   return im;
 }
 
-// lastOpCls for the image (m,cut): class of the last call on each key that is acknowledged at EVERY
-// instant producing the image (used only to name what a mismatch loses).
-inline void setLastOpCls(Ctx &c, const Recorded &r, int m, uint64_t cut)
+// cls for the image (m,cut): class of the last call on each key that is acknowledged at EVERY instant
+// producing the image (used only to name what a mismatch loses).
+inline void lastOpCls(const Recorded &r, int m, uint64_t cut, std::string cls[NKEYS])
 {
-  size_t upto = cut > 0 ? size_t(r.mutIdx[size_t(m)]) : (size_t(m) < r.mutIdx.size() ? size_t(r.mutIdx[size_t(m)]) : r.ev.size());
+  size_t upto = cut > 0 ? size_t(r.mutIdx[size_t(m)]) : (m == 0 ? 0 : size_t(r.mutIdx[size_t(m - 1)]) + 1);
   for (int k = 0; k < NKEYS; ++k)
-    c.lastOpCls[k].clear();
+    cls[k] = "none";
   for (size_t i = 0; i < upto; ++i)
     if (r.ev[i].kind == cfs::END && r.ev[i].op >= 0 && size_t(r.ev[i].op) < r.acked.size() && r.acked[size_t(r.ev[i].op)])
     {
       const OpDef *od = opDef(r.ops[size_t(r.ev[i].op)]);
       for (int k = 0; k < NKEYS; ++k)
         if (od && (od->touched >> k & 1))
-          c.lastOpCls[k] = od->cls;
+          cls[k] = od->cls;
     }
+}
+
+inline ImageCtx imageCtx(Ctx &c, const Recorded &r, int m, uint64_t cut, const std::string &histForMsg)
+{
+  ImageCtx I;
+  bool emptyI = false, boundary = false;
+  I.A = admForImage(r, m, cut, &emptyI, &boundary);
+  if (emptyI)
+    c.sink->violation("harness-internal", "empty-admissible-set", "kv h=" + histForMsg, I.A.str());
+  I.im = imageAt(r, m, cut);
+  lastOpCls(r, m, cut, I.cls);
+  // an image that is also the image of an instant between two calls: every acknowledged call is the last
+  // one on its keys, so name those too
+  if (boundary)
+  {
+    size_t hi = size_t(m) < r.mutIdx.size() ? size_t(r.mutIdx[size_t(m)]) : r.ev.size();
+    for (size_t i = 0; i < hi; ++i)
+      if (r.ev[i].kind == cfs::END && r.ev[i].op >= 0 && size_t(r.ev[i].op) < r.acked.size() && r.acked[size_t(r.ev[i].op)])
+      {
+        const OpDef *od = opDef(r.ops[size_t(r.ev[i].op)]);
+        for (int k = 0; k < NKEYS; ++k)
+          if (od && (od->touched >> k & 1))
+            I.cls[k] = od->cls;
+      }
+  }
+  I.shape = boundary ? "none" : shapeOf(r, m, cut);
+  return I;
 }
 
 inline uint64_t mixHash(uint64_t h, uint64_t v)
@@ -1025,46 +1120,134 @@ inline uint64_t mixHash(uint64_t h, uint64_t v)
   return h * 0xff51afd7ed558ccdull;
 }
 
+inline const Finding *sameFinding(const std::vector<Finding> &v, const Finding &f)
+{
+  for (auto &g : v)
+    if (g.kind == f.kind && g.key == f.key)
+      return &g;
+  return nullptr;
+}
+
 // Evaluate one crash point of a recorded history with the given continuations.
+//
+// Signature of a finding = its MINIMAL failing shape: before reporting, the finding is re-evaluated on
+// simpler variants of the case (cached per execution) and named after the simplest one that still shows
+// the same mismatch on the same key:
+//   wall-clock advance -> none;  continuation b/c/d -> a (d with the further call complete -> c);
+//   crash image -> the call-boundary image before the in-flight call ("crash=none").
+// Nothing is dropped by the reduction: every finding is reported, with the exact original case.
 inline void evalPoint(Ctx &c, const Level1 &L, const CrashPoint &cp, const std::vector<Cont> &conts)
 {
   const Recorded &r = L.rec;
-  bool emptyI = false;
-  Adm A = admForImage(r, cp.m, cp.cut, &emptyI);
   CaseId id;
   id.hist = c.hist;
   id.m = cp.m;
   id.cut = cp.cut;
-  if (emptyI)
-    c.sink->violation("harness-internal", "empty-admissible-set", id.str(), A.str());
-  cfs::Image im = imageAt(r, cp.m, cp.cut);
-  setLastOpCls(c, r, cp.m, cp.cut);
+  ImageCtx I = imageCtx(c, r, cp.m, cp.cut, c.hist);
+  ImageCtx I0;
+  bool haveI0 = false;
   c.sink->count("crash_images");
   if (cp.cut > 0)
     c.sink->count("crash_images_torn");
   if (c.env->verbose)
   {
-    printf("  image m=%d cut=%llu (%s): files:", cp.m, (unsigned long long)cp.cut, cp.shape.c_str());
-    for (auto &kv : im.files)
+    printf("  image m=%d cut=%llu (%s; %s): files:", cp.m, (unsigned long long)cp.cut, cp.shape.c_str(), I.shape.c_str());
+    for (auto &kv : I.im.files)
       printf(" %s[%zu]=%s", kv.first.c_str(), kv.second.size(), vr::hex(kv.second).c_str());
-    printf("\n  admissible: %s\n", A.str().c_str());
+    printf("\n  admissible: %s\n", I.A.str().c_str());
   }
-  uint64_t ih = im.hash();
-  bool nontrivial = false;
+  uint64_t ih = I.im.hash();
+  bool nontrivial = cp.cut > 0;
   for (int k = 0; k < NKEYS; ++k)
-    if (A.k[k].size() > 1)
+    if (I.A.k[k].size() > 1)
       nontrivial = true;
+
+  std::map<std::string, std::vector<Finding>> cache;
+  auto run = [&](int which, const Cont &ct, bool primary) -> const std::vector<Finding> &
+  {
+    std::string key = std::to_string(which) + ct.str();
+    auto it = cache.find(key);
+    if (it != cache.end())
+    {
+      if (primary && ct.kind != 'd')
+      {
+        c.sink->count("cases");
+        c.sink->count((std::string("cont_") + ct.kind).c_str());
+      }
+      return it->second;
+    }
+    if (which == 1 && !haveI0)
+    {
+      I0 = imageCtx(c, r, L.mStart, 0, c.hist);
+      haveI0 = true;
+    }
+    if (c.env->verbose)
+      printf("   -- %s continuation %s on %s\n", primary ? "run" : "reduction: run", ct.str().c_str(), which ? "the call-boundary image before the in-flight call" : "the crash image");
+    return cache[key] = runCont(c, which ? I0 : I, ct, primary);
+  };
+  struct Reduced
+  {
+    std::string shape;
+    Cont ct;
+    std::string cls;
+  };
+  std::function<Reduced(const Cont &, const Finding &)> reduce = [&](const Cont &ct, const Finding &f) -> Reduced
+  {
+    if (ct.wallAdvS != 0)
+    {
+      Cont z = ct;
+      z.wallAdvS = 0;
+      if (const Finding *g = sameFinding(run(0, z, false), f))
+        return reduce(z, *g);
+    }
+    if (ct.kind != 'a')
+    {
+      Cont z{'a', 0, ct.wallAdvS};
+      if (const Finding *g = sameFinding(run(0, z, false), f))
+        return reduce(z, *g);
+    }
+    if (ct.kind == 'd' && f.secondFinal)
+    {
+      Cont z{'c', ct.op, ct.wallAdvS};
+      if (const Finding *g = sameFinding(run(0, z, false), f))
+        return reduce(z, *g);
+    }
+    if (I.shape != "none" && ct.kind != 'd')
+    {
+      if (const Finding *g = sameFinding(run(1, ct, false), f))
+        return Reduced{"none", ct, g->cls};
+    }
+    return Reduced{I.shape, ct, f.cls};
+  };
+
   for (const Cont &ct : conts)
   {
-    if (nontrivial || cp.cut > 0)
+    if (nontrivial)
       c.sink->distinct(mixHash(mixHash(ih, uint64_t(ct.kind) << 16 | uint64_t(ct.op) << 8), uint64_t(ct.wallAdvS)));
-    // the ever-values depend on the continuation: restore afterwards
-    std::vector<std::string> saved[NKEYS];
-    for (int k = 0; k < NKEYS; ++k)
-      saved[k] = c.ever[k];
-    runCont(c, im, A, cp.shape, id, ct);
-    for (int k = 0; k < NKEYS; ++k)
-      c.ever[k] = saved[k];
+    std::vector<Finding> fs = run(0, ct, true); // copy: the cache may grow during reduction
+    std::vector<std::string> seen;
+    for (const Finding &f : fs)
+    {
+      Reduced rd = reduce(ct, f);
+      std::string sig = f.kind + ":op=" + rd.cls + ":crash=" + rd.shape + ":cont=" + std::string(1, rd.ct.kind) +
+                        (rd.ct.wallAdvS ? ":wall+" + std::to_string(rd.ct.wallAdvS) : "");
+      CaseId cid = id;
+      cid.cont = ct;
+      cid.m2 = f.m2;
+      cid.cut2 = f.cut2;
+      std::string dedup = sig + "|" + cid.str();
+      if (std::find(seen.begin(), seen.end(), dedup) != seen.end())
+        continue;
+      seen.push_back(dedup);
+      c.anyViolation = true;
+      std::string detail = "history [" + histName(c.hist) + "] crash point m=" + std::to_string(cp.m) + " cut=" + std::to_string(cp.cut) + " (" + cp.shape +
+                           ") continuation " + ct.str() +
+                           (f.m2 >= 0 ? " second crash m2=" + std::to_string(f.m2) + " cut2=" + std::to_string(f.cut2) : std::string()) + ": " + f.detail +
+                           "; minimal shape: crash=" + rd.shape + " continuation " + rd.ct.str();
+      c.sink->violation(clauseOf(f.kind), sig, cid.str(), detail);
+      if (c.env->verbose)
+        printf("  VIOLATION %s / %s :: %s\n", clauseOf(f.kind).c_str(), sig.c_str(), detail.c_str());
+    }
   }
 }
 
